@@ -228,4 +228,33 @@ SplitVoteGuide == <<
     <<"T", 1>>, <<"T", 2>>, <<"D", "RV", 1, 3>>, <<"D", "RV", 2, 5>>, <<"D", "RVR", 3, 1>>, <<"D", "RVR", 5, 2>>,
     <<"T", 2>>, <<"T", 1>>, <<"D", "RV", 2, 3, 2>>, <<"D", "RV", 2, 5, 2>>, <<"D", "RVR", 3, 2, 2>>,
     <<"D", "RVR", 5, 2, 2>>, <<"D", "RV", 1, 4>>, <<"D", "RVR", 4, 1>>, <<"S", 2>>, <<"H", 2>>, <<"D", "AE", 2, 1>>, <<"D", "AER", 1, 2>> >>
+
+(* Directed scenario (3 nodes), AppendEntries of ONE term reordered to one     *)
+(* follower, then a leader change: n1 leads term 1, appends X1, heartbeat (#1  *)
+(* carries X1), appends X2, heartbeat (#2 carries X1,X2); the three requests   *)
+(* n1 -> n2 in flight (initial empty one, #1, #2) are delivered in every order *)
+(* (the graph has all of them), n2 answers, n1 commits; n2 then wins term 2    *)
+(* with the vote of n3 (empty log), appends Y and commits it with n3.          *)
+ReorderGuide == <<
+    <<"T", 1>>, <<"D", "RV", 1, 2>>, <<"D", "RVR", 2, 1>>,
+    <<"S", 1>>, <<"H", 1>>, <<"S", 1>>, <<"H", 1>>,
+    <<"D", "AE", 1, 2>>, <<"D", "AER", 2, 1>>, <<"D", "AE", 1, 2>>, <<"D", "AE", 1, 2>>,
+    <<"T", 2>>, <<"D", "RV", 2, 3, 2>>, <<"D", "RVR", 3, 2, 2>>,
+    <<"S", 2>>, <<"H", 2>>, <<"D", "AE", 2, 3>>, <<"D", "AER", 3, 2>>, <<"D", "AE", 2, 3>>, <<"D", "AER", 3, 2>> >>
+
+(* Directed scenario (3 nodes), partitioned leader with a longer, older log:   *)
+(* n1 leads term 1 and, cut off, appends X1,X2,X3 (uncommitted); n2 wins term  *)
+(* 2 with n3, appends Y, commits it with n3; after the heal n1 learns of term 2*)
+(* from the refusal of its own heartbeat, steps down, times out first and asks *)
+(* for votes in term 3 with (last index 3, last term 1) against (1, term 2):   *)
+(* it must be refused.                                                         *)
+PartitionGuide == <<
+    <<"T", 1>>, <<"D", "RV", 1, 2>>, <<"D", "RVR", 2, 1>>,
+    <<"S", 1>>, <<"S", 1>>, <<"S", 1>>,
+    <<"T", 2>>, <<"D", "RV", 2, 3, 2>>, <<"D", "RVR", 3, 2, 2>>,
+    <<"S", 2>>, <<"H", 2>>, <<"D", "AE", 2, 3, 2>>, <<"D", "AER", 3, 2, 2>>, <<"D", "AE", 2, 3, 2>>, <<"D", "AER", 3, 2, 2>>,
+    <<"H", 2>>, <<"D", "AE", 2, 3, 2>>,
+    <<"H", 1>>, <<"D", "AE", 1, 3, 1>>, <<"D", "AER", 3, 1, 2>>,
+    <<"T", 1>>, <<"D", "RV", 1, 3, 3>>, <<"D", "RVR", 3, 1, 3>>, <<"D", "RV", 1, 2, 3>>, <<"D", "RVR", 2, 1, 3>>,
+    <<"S", 1>>, <<"H", 1>>, <<"D", "AE", 1, 3, 3>>, <<"D", "AER", 3, 1, 3>>, <<"D", "AE", 1, 3, 3>>, <<"D", "AER", 3, 1, 3>> >>
 =============================================================================
